@@ -614,12 +614,16 @@ theorem expr_rows_plain {fc : FCtx} {e : Expr} {st : St} {d : List Row}
   | e _ _ _ => simp [Row.smtOf] at h1
   | _ => rfl
 
-/-! ### `self` as an expression (value level; not yet part of `coreE` / `coreB`) -/
+/-! ### `self` as an expression (value level: `coreX` ⊇ `coreE`; `coreB` uses `coreX` wherever a statement has an expression) -/
 
-/-- `coreE` + the instance handle `self` + attribute reads rooted at it (`self.attr`) -/
+/-- `coreE` + the instance handle `self` ANYWHERE in the expression: as a value (`self == d`, `not_empty self`), as the
+    root of an attribute read (`self.attr`), inside unary / binary operations (`self.a + 1`); operators in the normal
+    form, as in `coreE` -/
 def coreX : Expr → Bool
   | .self => true
-  | .field h a => coreX h || coreE (.field h a)
+  | .field h _ => coreX h
+  | .un op e => lowerStr op == op && coreX e
+  | .bin l op r => lowerStr op == op && coreX l && coreX r
   | e => coreE e
 
 /-- what one `accept_<expression node>` call does to the builder state when the look-up of `self` may CREATE the
@@ -724,22 +728,118 @@ theorem field_specW {fc : FCtx} {h : Expr} {a : String} {st : St} (W : ExprSpecW
     rw [← List.append_assoc] at hrec
     simp only [regenVal, hsub, hrec, genExpr]
 
-/-- value level for `coreX` (= `coreE`, `self`, `self.attr`), from ANY sound builder state: the rows read back as the
-    source expression, `TS` / `SymOK` / the current block are kept -/
+/-- a unary operation over an operand that may have created `self` (`not_empty self`, `not self.Flag`) -/
+theorem un_specW {fc : FCtx} {op : String} {e : Expr} {st : St} (W : ExprSpecW fc e st) (hop : lowerStr op = op) :
+    ExprSpecW fc (.un op e) st := by
+  have hb : buildExpr fc (.un op e) st =
+      mkLeaf (buildExpr fc e st).2 (fun i => .uny i (lowerStr op) (buildExpr fc e st).1) := by
+    simp [buildExpr, mkLeaf]
+  obtain ⟨d, hd, hl, hrows⟩ := W.grows
+  have hpop : (buildExpr fc (.un op e) st).2.pop = (buildExpr fc e st).2.pop ++
+      [.val (curBlkD (buildExpr fc e st).2.scopes), .uny (buildExpr fc e st).2.pop.length (lowerStr op) (buildExpr fc e st).1] := by
+    rw [hb]; simp [mkLeaf]
+  have hfst : (buildExpr fc (.un op e) st).1 = (buildExpr fc e st).2.pop.length := by rw [hb]; simp [mkLeaf]
+  have hsc : (buildExpr fc (.un op e) st).2.scopes = (buildExpr fc e st).2.scopes := by rw [hb]; simp [mkLeaf]
+  refine ⟨W.ok0, by rw [hsc]; exact W.shape, ⟨d ++ [.val (curBlkD (buildExpr fc e st).2.scopes),
+    .uny (buildExpr fc e st).2.pop.length (lowerStr op) (buildExpr fc e st).1], ?_, ?_, ?_⟩, ?_, ?_, ?_, ?_⟩
+  · rw [hpop, hd]; simp
+  · simp [szV]; omega
+  · intro x hx
+    rcases List.mem_append.1 hx with h' | h'
+    · exact hrows x h'
+    · simp at h'
+      rcases h' with rfl | rfl <;> simp [Row.smtOf, skeys]
+  · rw [hpop]; exact W.ts.leaf _ _ rfl rfl rfl
+  · exact W.sym.mono hsc hpop
+  · exact ⟨curBlkD (buildExpr fc e st).2.scopes, by rw [hpop, hfst]; simp⟩
+  · intro ext fuel hf
+    simp only [szV] at hf
+    obtain ⟨f, rfl⟩ := fuel_succ (by omega : 1 ≤ fuel)
+    rw [hpop, hfst]
+    have hsub := leaf_spec W.ts.tsv (curBlkD (buildExpr fc e st).2.scopes)
+      (.uny (buildExpr fc e st).2.pop.length (lowerStr op) (buildExpr fc e st).1) rfl ext
+    have hrec := W.regen ([.val (curBlkD (buildExpr fc e st).2.scopes),
+      .uny (buildExpr fc e st).2.pop.length (lowerStr op) (buildExpr fc e st).1] ++ ext) f (by omega)
+    rw [← List.append_assoc] at hrec
+    simp only [regenVal, hsub, hrec, genExpr]
+    rw [hop]
+
+/-- a binary operation whose operands may have created `self` (the left one first: `self.a + self.b`, `self == d`) -/
+theorem bin_specW {fc : FCtx} {op : String} {l rr : Expr} {st : St} (A : ExprSpecW fc l st)
+    (B : ExprSpecW fc rr (buildExpr fc l st).2) (hop : lowerStr op = op) : ExprSpecW fc (.bin l op rr) st := by
+  have hb : buildExpr fc (.bin l op rr) st = mkLeaf (buildExpr fc rr (buildExpr fc l st).2).2
+      (fun i => .bin i (lowerStr op) (buildExpr fc l st).1 (buildExpr fc rr (buildExpr fc l st).2).1) := by
+    simp [buildExpr, mkLeaf]
+  obtain ⟨dA, hdA, hlA, hrA⟩ := A.grows
+  obtain ⟨dB, hdB, hlB, hrB⟩ := B.grows
+  have Bts := B.ts
+  have Bsym := B.sym
+  have Bshape := B.shape
+  have Bregen := B.regen
+  generalize hSB : (buildExpr fc rr (buildExpr fc l st).2).2 = SB at *
+  generalize hvB : (buildExpr fc rr (buildExpr fc l st).2).1 = vB at *
+  have hpop : (buildExpr fc (.bin l op rr) st).2.pop = SB.pop ++
+      [.val (curBlkD SB.scopes), .bin SB.pop.length (lowerStr op) (buildExpr fc l st).1 vB] := by
+    rw [hb]; simp [mkLeaf]
+  have hfst : (buildExpr fc (.bin l op rr) st).1 = SB.pop.length := by rw [hb]; simp [mkLeaf]
+  have hsc : (buildExpr fc (.bin l op rr) st).2.scopes = SB.scopes := by rw [hb]; simp [mkLeaf]
+  refine ⟨A.ok0, by rw [hsc]; exact ⟨Bshape.1.trans A.shape.1, Bshape.2.trans A.shape.2⟩,
+    ⟨dA ++ dB ++ [.val (curBlkD SB.scopes), .bin SB.pop.length (lowerStr op) (buildExpr fc l st).1 vB], ?_, ?_, ?_⟩,
+    ?_, ?_, ?_, ?_⟩
+  · rw [hpop, hdB, hdA]; simp
+  · simp [szV]; omega
+  · intro x hx
+    rcases List.mem_append.1 hx with h' | h'
+    · rcases List.mem_append.1 h' with h'' | h''
+      · exact hrA x h''
+      · exact hrB x h''
+    · simp at h'
+      rcases h' with rfl | rfl <;> simp [Row.smtOf, skeys]
+  · rw [hpop]; exact Bts.leaf _ _ rfl rfl rfl
+  · exact Bsym.mono hsc hpop
+  · exact ⟨curBlkD SB.scopes, by rw [hpop, hfst]; simp⟩
+  · intro ext fuel hf
+    simp only [szV] at hf
+    obtain ⟨f, rfl⟩ := fuel_succ (by omega : 1 ≤ fuel)
+    rw [hpop, hfst]
+    have hsub := leaf_spec Bts.tsv (curBlkD SB.scopes)
+      (.bin SB.pop.length (lowerStr op) (buildExpr fc l st).1 vB) rfl ext
+    have hrecB := Bregen ([.val (curBlkD SB.scopes), .bin SB.pop.length (lowerStr op) (buildExpr fc l st).1 vB] ++ ext)
+      f (by omega)
+    have hrecA := A.regen (dB ++ [.val (curBlkD SB.scopes), .bin SB.pop.length (lowerStr op) (buildExpr fc l st).1 vB] ++ ext)
+      f (by omega)
+    rw [← List.append_assoc] at hrecB
+    rw [← List.append_assoc, ← List.append_assoc, ← hdB] at hrecA
+    simp only [regenVal, hsub, hrecA, hrecB, genExpr]
+    rw [hop]
+
+/-- value level for `coreX` (= `coreE` with `self` anywhere: as a value, as an attribute's root, inside unary / binary
+    operations), from ANY sound builder state: the rows read back as the source expression, `TS` / `SymOK` / the current
+    block are kept -/
 theorem buildExpr_specW (fc : FCtx) : ∀ (e : Expr) (st : St), coreX e = true → TS st.pop → SymOK st →
     (curBlk st.scopes).isSome = true → (buildExpr fc e st).2.ok = true → ExprSpecW fc e st
   | .self, st, _, hts, hsym, hblk, hok => self_specW hts hsym hblk hok
   | .field h a, st, hc, hts, hsym, hblk, hok => by
-    simp only [coreX, Bool.or_eq_true] at hc
-    rcases hc with hc | hc
-    · have hokh : (buildExpr fc h st).2.ok = true := by
-        simp [buildExpr] at hok; exact hok.1.1
-      exact field_specW (buildExpr_specW fc h st hc hts hsym hblk hokh) hblk hok
-    · exact (buildExpr_spec fc _ st hc hsym hts.tsv hok).weak hts hsym
+    simp only [coreX] at hc
+    have hokh : (buildExpr fc h st).2.ok = true := by
+      simp [buildExpr] at hok; exact hok.1.1
+    exact field_specW (buildExpr_specW fc h st hc hts hsym hblk hokh) hblk hok
+  | .un op e, st, hc, hts, hsym, hblk, hok => by
+    simp only [coreX, Bool.and_eq_true, beq_iff_eq] at hc
+    have hoke : (buildExpr fc e st).2.ok = true := by
+      simp [buildExpr] at hok; exact hok.1
+    exact un_specW (buildExpr_specW fc e st hc.2 hts hsym hblk hoke) hc.1
+  | .bin l op rr, st, hc, hts, hsym, hblk, hok => by
+    simp only [coreX, Bool.and_eq_true, beq_iff_eq] at hc
+    have hokB : (buildExpr fc rr (buildExpr fc l st).2).2.ok = true := by
+      simp [buildExpr] at hok; exact hok.1
+    have hokA : (buildExpr fc l st).2.ok = true := buildExpr_ok_mono fc rr _ hokB
+    have A := buildExpr_specW fc l st hc.1.2 hts hsym hblk hokA
+    exact bin_specW A (buildExpr_specW fc rr (buildExpr fc l st).2 hc.2 A.ts A.sym (by rw [A.shape.1]; exact hblk) hokB)
+      hc.1.1
   | .int v, st, hc, hts, hsym, _, hok | .real v, st, hc, hts, hsym, _, hok | .str v, st, hc, hts, hsym, _, hok
   | .bool v, st, hc, hts, hsym, _, hok | .enum _ v, st, hc, hts, hsym, _, hok | .var v, st, hc, hts, hsym, _, hok
   | .selected, st, hc, hts, hsym, _, hok | .param _, st, hc, hts, hsym, _, hok
-  | .un _ _, st, hc, hts, hsym, _, hok | .bin _ _ _, st, hc, hts, hsym, _, hok
   | .index _ _, st, hc, hts, hsym, _, hok | .call _ _ _ _, st, hc, hts, hsym, _, hok
   | .icall _ _ _, st, hc, hts, hsym, _, hok =>
     (buildExpr_spec fc _ st (by simpa [coreX] using hc) hsym hts.tsv hok).weak hts hsym
@@ -819,40 +919,41 @@ theorem assign_new_spec {fc : FCtx} {prev : Option Nat} {n : String} {r : Expr} 
           (newVar n (fun v => .vtrn v) ((buildExpr fc r M0).2.guard c)).1)).2.new
         (.ai st.pop.length (buildExpr fc r M0).1
           (newVal (newVar n (fun v => .vtrn v) ((buildExpr fc r M0).2.guard c)).2).1)).2))
-    (hinv : Inv st) (hprev : ∀ k, prev = some k → k < st.pop.length) (hcr : coreE r = true) (hn : n ≠ "self")
+    (hinv : Inv st) (hprev : ∀ k, prev = some k → k < st.pop.length) (hcr : coreX r = true) (hn : n ≠ "self")
     (hok : (buildStmt fc prev (.assign (.var n) r) st).2.ok = true) : StmtSpec fc prev (.assign (.var n) r) st := by
   have hokR : (buildExpr fc r M0).2.ok = true := by
     rw [hb] at hok; simp [newVar_ok] at hok; exact hok.1.1.1
   have hts0 : TS M0.pop := by rw [hM0p]; simpa using newSmt_ts hinv hprev
   have hsym0 : SymOK M0 := hinv.sym.mono hM0s hM0p
-  have R := buildExpr_spec fc r M0 hcr hsym0 hts0.tsv hokR
-  obtain ⟨dR, hdR, hlR, _, hoR⟩ := R.grows
+  have R := buildExpr_specW fc r M0 hcr hts0 hsym0 (by rw [hM0s]; exact hinv.isSome) hokR
+  obtain ⟨dR, hdR, hlR, hoR⟩ := R.grows
   obtain ⟨b, hbk, hblt⟩ := hinv.blk
-  have hsc : (buildExpr fc r M0).2.scopes = st.scopes := by rw [R.scopes, hM0s]
+  have hcbR : curBlk (buildExpr fc r M0).2.scopes = curBlk st.scopes := by rw [R.shape.1, hM0s]
+  have hsc : curBlkD (buildExpr fc r M0).2.scopes = curBlkD st.scopes := by simp [curBlkD, hcbR]
   have hne : ((buildExpr fc r M0).2.guard c).scopes ≠ [] := by
-    simp [hsc]; exact scopes_ne_of_curBlk hbk
+    simp only [guard_scopes]; exact scopes_ne_of_curBlk (hcbR.trans hbk)
   simp only [newVar_fst, newVal_fst, newVar_pop, guard_pop, List.length_append, List.length_cons, List.length_nil] at hb
   apply simple_spec _ _ hb hinv (hM0ok R.ok0)
   · refine ⟨dR ++ [.var n (curBlkD st.scopes), .vtrn (buildExpr fc r M0).2.pop.length, .val (curBlkD st.scopes),
       .tvl ((buildExpr fc r M0).2.pop.length + 2) (buildExpr fc r M0).2.pop.length], ?_, by simp [szS, szV]; omega, ?_⟩
-    · simp [hdR, hM0p, hsc, curBlkD, curBlk_install]
+    · simp [hdR, hM0p, hcbR, curBlkD, curBlk_install]
     · intro x hx
       rcases List.mem_append.1 hx with h | h
-      · exact expr_rows_plain (fc := fc) (e := r) (st := st) hoR x h
+      · exact hoR x h
       · simp at h
         rcases h with rfl | rfl | rfl | rfl <;> simp [Row.smtOf, skeys]
   · simp only [new_pop, newVal_pop]
     apply TS.append1
     · apply TS.append1
-      · exact newVar_ts (by simpa using hts0.expr R) (fun i => by simp [Row.valOf, Row.smtOf, skeys])
+      · exact newVar_ts (by simpa using R.ts) (fun i => by simp [Row.valOf, Row.smtOf, skeys])
       · simp [Row.valOf, Row.smtOf, skeys]
     · simp [Row.valOf, Row.smtOf, skeys]
   · have hV : SymOK (newVar n (fun v => .vtrn v) ((buildExpr fc r M0).2.guard c)).2 :=
-      newVar_sym ((R.symOK hsym0).mono (st' := (buildExpr fc r M0).2.guard c) (by simp) (d := []) (by simp)) hne
+      newVar_sym (R.sym.mono (st' := (buildExpr fc r M0).2.guard c) (by simp) (d := []) (by simp)) hne
     have hW := hV.mono (st' := (newVal (newVar n (fun v => .vtrn v) ((buildExpr fc r M0).2.guard c)).2).2)
       (newVal_scopes _) (newVal_pop _)
     exact hW.mono (new_scopes _ _) (new_pop _ _)
-  · simp [curBlk_install, install_tail, hsc]
+  · simp [curBlk_install, install_tail, hcbR, R.shape.2, hM0s]
   · rfl
   · rfl
   · rfl
@@ -863,25 +964,38 @@ theorem assign_new_spec {fc : FCtx} {prev : Option Nat} {n : String} {r : Expr} 
     simp only [regenSmt, hs, genStmt, genExpr]
     have e : (buildExpr fc r M0).2.pop.length + (0 + 1 + 1) = (buildExpr fc r M0).2.pop.length + 2 := rfl
     simp only [e, new_pop, newVal_pop, newVar_pop, guard_pop]
-    rw [new_transient_regen R.tsv hn]
+    rw [new_transient_regen R.ts.tsv hn]
     have assoc : ∀ (a b c d x : Row), (buildExpr fc r M0).2.pop ++ [a, b] ++ [c] ++ [d] ++ [x] ++ ext =
         (buildExpr fc r M0).2.pop ++ ([a, b, c, d, x] ++ ext) := by intros; simp
     rw [assoc, R.regen _ (f' + 1) (by omega)]
 
-theorem coreX_of_coreE {e : Expr} (h : coreE e = true) : coreX e = true := by
-  cases e <;> simp_all [coreX, coreE]
+theorem coreX_of_coreE : ∀ {e : Expr}, coreE e = true → coreX e = true
+  | .field h _, hc => by
+    simp only [coreE] at hc
+    simpa [coreX] using coreX_of_coreE hc
+  | .un op e, hc => by
+    simp only [coreE, Bool.and_eq_true] at hc
+    simp only [coreX, Bool.and_eq_true]
+    exact ⟨hc.1, coreX_of_coreE hc.2⟩
+  | .bin l op r, hc => by
+    simp only [coreE, Bool.and_eq_true] at hc
+    simp only [coreX, Bool.and_eq_true]
+    exact ⟨⟨hc.1.1, coreX_of_coreE hc.1.2⟩, coreX_of_coreE hc.2⟩
+  | .int _, hc | .real _, hc | .str _, hc | .bool _, hc | .enum _ _, hc | .var _, hc | .selected, hc | .param _, hc
+  | .self, hc | .index _ _, hc | .call _ _ _ _, hc | .icall _ _ _, hc => by simp_all [coreX, coreE]
 
 /-- the statements the statement-level theorem covers (no nested block).  The instance names of `delete`, `relate` /
     `unrelate` (+ `using`) may be `self` (the look-up creates V_VAR + V_INT the first time, in a home that has a
-    `self`); the returned value and the assigned attribute's root may be `self` / `self.attr` (`coreX`), so may the
-    right-hand side of an assignment to an attribute; the names a statement may DECLARE (`create`, `select`, an assigned
-    transient) are not `self` -/
+    `self`); every expression of a statement — the returned value, the assigned attribute's root, the right-hand side
+    of an assignment to an attribute or to a (declared) variable — is a `coreX` expression, i.e. may contain `self`
+    anywhere (the builder's `plainE` guard on the right-hand side is kept: it is part of `flatOk`); the names a
+    statement may DECLARE (`create`, `select`, an assigned transient) are not `self` -/
 def coreS0 : Stmt → Bool
   | .brk | .cont | .ctl | .ret none | .createNV _ => true
   | .ret (some e) => coreX e
   | .delete _ => true
   | .create v _ => v != "self"
-  | .assign (.var n) r => n != "self" && coreE r
+  | .assign (.var n) r => n != "self" && coreX r
   | .assign (.field h _) r => coreX h && coreX r
   | .selFrom card v _ => v != "self" && lowerStr card == card
   | .relate _ _ _ _ | .unrelate _ _ _ _ => true
@@ -1100,7 +1214,7 @@ theorem buildStmt_spec0 (fc : FCtx) (s : Stmt) (prev : Option Nat) (st : St) (hc
               buildExpr fc (.var n) (buildExpr fc r ((newSmt prev st).2.guard (plainE (newSmt prev st).2 r))).2 := by
             simp [buildLval, lookupVar_eq hcnd, hg, hf]
           exact assign_expr_spec ((newSmt prev st).2.guard (plainE (newSmt prev st).2 r)) (by simp) (by simp) hM0ok
-            (by simp [buildStmt, hbl]) hinv hprev (coreX_of_coreE hc.2) rfl hok
+            (by simp [buildStmt, hbl]) hinv hprev hc.2 rfl hok
         | none =>
           have hs : (n == "self") = false := by simpa using hn
           exact assign_new_spec ((newSmt prev st).2.guard (plainE (newSmt prev st).2 r)) (by simp) (by simp) hM0ok
@@ -1219,20 +1333,23 @@ theorem buildStmt_ok_mono_core0 {fc : FCtx} {prev : Option Nat} {s : Stmt} {st :
 @[simp] theorem popScope_scopes (st : St) : (popScope st).scopes = st.scopes.tail := rfl
 
 /- the statements / statement lists the body-level theorems cover: `coreS0` and, recursively, `while`, `for each`,
-   `select … where` and `if` with any number of `elif` clauses and an optional `else` clause (`coreEl` / `coreEs`) -/
+   `select … where` and `if` with any number of `elif` clauses and an optional `else` clause (`coreEl` / `coreEs`);
+   the heads of `while` / `if` / `elif` and the where clause are `coreX` expressions (`self` anywhere: a `self` created
+   by a head is installed in the block HOLDING the statement, one created by a where clause in the clause's O_OBJ scope,
+   which is popped after the clause) -/
 mutual
   def coreS : Stmt → Bool
-    | .while_ e b => coreE e && coreB b
-    | .if_ e b elifs els => coreE e && coreB b && coreEl elifs && coreEs els
+    | .while_ e b => coreX e && coreB b
+    | .if_ e b elifs els => coreX e && coreB b && coreEl elifs && coreEs els
     | .forEach v sv b => v != "self" && sv != "self" && coreB b
-    | .selFromW card v _ w => v != "self" && lowerStr card == card && coreE w
+    | .selFromW card v _ w => v != "self" && lowerStr card == card && coreX w
     | s => coreS0 s
   def coreB : Block → Bool
     | .nil => true
     | .cons s rest => coreS s && coreB rest
   def coreEl : Elifs → Bool
     | .nil => true
-    | .cons e b rest => coreE e && coreB b && coreEl rest
+    | .cons e b rest => coreX e && coreB b && coreEl rest
   def coreEs : Else → Bool
     | .none => true
     | .some b => coreB b
@@ -1934,7 +2051,7 @@ theorem blockStmt_spec {fc : FCtx} {prev : Option Nat} {s : Stmt} {b : Block} {s
     exact hprint rest f hf (hne (fun x hx k hk => by have := (hfr x hx).2 k hk; omega)) hs hblk
 
 /-- `while`: ACT_SMT, the condition's values, a new ACT_BLK with its scope and statement list, ACT_WHL -/
-theorem while_spec {fc : FCtx} {prev : Option Nat} {e : Expr} {b : Block} {st : St} (hce : coreE e = true)
+theorem while_spec {fc : FCtx} {prev : Option Nat} {e : Expr} {b : Block} {st : St} (hce : coreX e = true)
     (hinv : Inv st) (hprev : ∀ k, prev = some k → k < st.pop.length)
     (hok : (buildStmt fc prev (.while_ e b) st).2.ok = true)
     (hM : ∀ st' : St, (buildStmts fc none b st').ok = true → st'.ok = true)
@@ -1950,12 +2067,12 @@ theorem while_spec {fc : FCtx} {prev : Option Nat} {e : Expr} {b : Block} {st : 
         ((buildExpr fc e (newSmt prev st).2).2.new (.blk false)).2)).ok = true := by rw [hb] at hok; simpa using hok
     simpa using hM _ h1
   have hts0 := newSmt_ts hinv hprev
-  have E := buildExpr_spec fc e (newSmt prev st).2 hce (newSmt_sym hinv) hts0.tsv hokV
-  obtain ⟨dE, hdE, hlE, _, hoE⟩ := E.grows
+  have E := buildExpr_specW fc e (newSmt prev st).2 hce hts0 (newSmt_sym hinv) (by simpa using hinv.isSome) hokV
+  obtain ⟨dE, hdE, hlE, hoE⟩ := E.grows
   apply blockStmt_spec (buildExpr fc e (newSmt prev st).2).2
     (fun k => .whl st.pop.length k (buildExpr fc e (newSmt prev st).2).1) dE hb hinv hok
-    (by rw [hdE]; simp) (expr_rows_plain (fc := fc) (e := e) (st := st) hoE) (hts0.expr E)
-    (E.symOK (newSmt_sym hinv)) (by rw [E.scopes]; simp) (by rw [E.scopes]; simp)
+    (by rw [hdE]; simp) hoE E.ts
+    E.sym (by rw [E.shape.1]; simp) (by rw [E.shape.2]; simp)
     (fun h => by have := E.ok0; simp at this; exact this.1)
     ⟨rfl, rfl, rfl⟩ (by simp [szS]; omega) (by simp [szS]) hM hC
   intro rest f hf _ hs hblk
@@ -1980,7 +2097,7 @@ theorem no_clauses {q : FlatPop} {n : Nat} (h : ∀ x ∈ q, ∀ k ∈ ikeys x, 
 
 /-- `if` without elif / else: ACT_SMT, the condition's values, a new ACT_BLK and its statement list, ACT_IF; no ACT_EL /
     ACT_E row names the statement (R682 / R683 navigate to nothing) -/
-theorem if_spec {fc : FCtx} {prev : Option Nat} {e : Expr} {b : Block} {st : St} (hce : coreE e = true)
+theorem if_spec {fc : FCtx} {prev : Option Nat} {e : Expr} {b : Block} {st : St} (hce : coreX e = true)
     (hinv : Inv st) (hprev : ∀ k, prev = some k → k < st.pop.length)
     (hok : (buildStmt fc prev (.if_ e b .nil .none) st).2.ok = true)
     (hM : ∀ st' : St, (buildStmts fc none b st').ok = true → st'.ok = true)
@@ -1996,15 +2113,15 @@ theorem if_spec {fc : FCtx} {prev : Option Nat} {e : Expr} {b : Block} {st : St}
         ((buildExpr fc e (newSmt prev st).2).2.new (.blk false)).2)).ok = true := by rw [hb] at hok; simpa using hok
     simpa using hM _ h1
   have hts0 := newSmt_ts hinv hprev
-  have E := buildExpr_spec fc e (newSmt prev st).2 hce (newSmt_sym hinv) hts0.tsv hokV
-  obtain ⟨dE, hdE, hlE, _, hoE⟩ := E.grows
-  have hplain := expr_rows_plain (fc := fc) (e := e) (st := st) hoE
+  have E := buildExpr_specW fc e (newSmt prev st).2 hce hts0 (newSmt_sym hinv) (by simpa using hinv.isSome) hokV
+  obtain ⟨dE, hdE, hlE, hoE⟩ := E.grows
+  have hplain := hoE
   have hVpop : (buildExpr fc e (newSmt prev st).2).2.pop = st.pop ++ (.smt (curBlkD st.scopes) prev :: dE) := by
     rw [hdE]; simp
   apply blockStmt_spec (buildExpr fc e (newSmt prev st).2).2
     (fun k => .if_ st.pop.length k (buildExpr fc e (newSmt prev st).2).1) dE hb hinv hok
-    hVpop hplain (hts0.expr E)
-    (E.symOK (newSmt_sym hinv)) (by rw [E.scopes]; simp) (by rw [E.scopes]; simp)
+    hVpop hplain E.ts
+    E.sym (by rw [E.shape.1]; simp) (by rw [E.shape.2]; simp)
     (fun h => by have := E.ok0; simp at this; exact this.1)
     ⟨rfl, rfl, rfl⟩ (by simp [szS, szEl, szEs]; omega) (by simp [szS, szEl, szEs]) hM hC
   intro rest f hf hik hs hblk
@@ -2093,7 +2210,7 @@ theorem forEach_spec {fc : FCtx} {prev : Option Nat} {v sv : String} {b : Block}
 /-- `select any|many v from instances of KL where <expr>`: ACT_SMT, the where clause's values (accepted in the O_OBJ scope:
     `selected`), the variable visible or declared AFTER the clause, ACT_FIW -/
 theorem selFromW_spec {fc : FCtx} {prev : Option Nat} {card v kl : String} {w : Expr} {st : St} (hv : v ≠ "self")
-    (hcard : lowerStr card = card) (hcw : coreE w = true) (hinv : Inv st)
+    (hcard : lowerStr card = card) (hcw : coreX w = true) (hinv : Inv st)
     (hprev : ∀ k, prev = some k → k < st.pop.length)
     (hok : (buildStmt fc prev (.selFromW card v kl w) st).2.ok = true) : StmtSpec fc prev (.selFromW card v kl w) st := by
   have hb := buildStmt_selFromW fc prev card v kl w st
@@ -2110,16 +2227,18 @@ theorem selFromW_spec {fc : FCtx} {prev : Option Nat} {card v kl : String} {w : 
     intro n x hf
     simp only [pushScope_scopes, findSym, List.lookup] at hf
     exact hsymG n x hf
-  have E := buildExpr_spec fc w (pushScope (.obj kl) G) hcw hsymP (by simpa using hts0.tsv) hWok
-  obtain ⟨dW, hdW, hlW, _, hoW⟩ := E.grows
-  have hWsc : (buildExpr fc w (pushScope (.obj kl) G)).2.scopes = ⟨.obj kl, []⟩ :: st.scopes := by
-    rw [E.scopes]; simp [hGsc]
-  have hWts : TS (buildExpr fc w (pushScope (.obj kl) G)).2.pop := TS.expr (st := pushScope (.obj kl) G) (by simpa using hts0) E
+  have E := buildExpr_specW fc w (pushScope (.obj kl) G) hcw (by simpa using hts0) hsymP
+    (by simpa [curBlk, hGsc] using hinv.isSome) hWok
+  obtain ⟨dW, hdW, hlW, hoW⟩ := E.grows
+  -- a `self` created by the clause is installed in the O_OBJ scope, which is popped: the scopes below are untouched
+  have hWtl : (buildExpr fc w (pushScope (.obj kl) G)).2.scopes.tail = st.scopes := by
+    rw [E.shape.2]; simp [hGsc]
+  have hWts : TS (buildExpr fc w (pushScope (.obj kl) G)).2.pop := E.ts
   have hWpop : (buildExpr fc w (pushScope (.obj kl) G)).2.pop = st.pop ++ (.smt (curBlkD st.scopes) prev :: dW) := by
     rw [hdW]; simp [hGpop]
   have hok0 : st.ok = true := hGok (by have := E.ok0; simpa using this)
   have hS2sym : SymOK (popScope (buildExpr fc w (pushScope (.obj kl) G)).2) :=
-    hinv.sym.mono (by simp [hWsc]) (d := .smt (curBlkD st.scopes) prev :: dW) (by simp [hWpop])
+    hinv.sym.mono (by simp [hWtl]) (d := .smt (curBlkD st.scopes) prev :: dW) (by simp [hWpop])
   have hprint : ∀ (mid : St) (x : Nat) (dx : List Row), SymOK mid → findSym mid.scopes v = some x →
       mid.pop = (buildExpr fc w (pushScope (.obj kl) G)).2.pop ++ dx →
       ∀ (ext : List Row) (fuel : Nat), szS (.selFromW card v kl w) ≤ fuel →
@@ -2141,18 +2260,18 @@ theorem selFromW_spec {fc : FCtx} {prev : Option Nat} {card v kl : String} {w : 
   · rw [he] at hb
     simp only [] at hb
     apply simple_spec _ _ hb hinv hok0
-    · exact ⟨dW, by simp [hWpop], by simp [szS]; omega, expr_rows_plain (fc := fc) (e := w) (st := st) hoW⟩
+    · exact ⟨dW, by simp [hWpop], by simp [szS]; omega, hoW⟩
     · simpa using hWts
     · exact hS2sym
-    · simp [hWsc]
+    · simp [hWtl]
     · rfl
     · rfl
     · rfl
-    · exact hprint _ xv [] hS2sym (by simpa [hWsc, hGsc] using hfx) (by simp)
+    · exact hprint _ xv [] hS2sym (by simpa [hWtl, hGsc] using hfx) (by simp)
   · rw [he] at hb
     simp only [newVar_fst, popScope_pop] at hb
     have hne : (popScope (buildExpr fc w (pushScope (.obj kl) G)).2).scopes ≠ [] := by
-      simp [hWsc]; exact scopes_ne_of_curBlk hb0
+      simp only [popScope_scopes, hWtl]; exact scopes_ne_of_curBlk hb0
     have hsubf : ∀ i, (if isMany card then Row.vins i kl else Row.vint i kl).valOf = none ∧
         (if isMany card then Row.vins i kl else Row.vint i kl).smtOf = none ∧
         skeys (if isMany card then Row.vins i kl else Row.vint i kl) = [] := by
@@ -2160,25 +2279,25 @@ theorem selFromW_spec {fc : FCtx} {prev : Option Nat} {card v kl : String} {w : 
     have hVsym := newVar_sym (n := v) (sub := fun i => if isMany card then Row.vins i kl else Row.vint i kl) hS2sym hne
     apply simple_spec _ _ hb hinv hok0
     · refine ⟨dW ++ [.var v (curBlkD st.scopes), if isMany card then .vins ((buildExpr fc w (pushScope (.obj kl) G)).2.pop.length) kl
-          else .vint ((buildExpr fc w (pushScope (.obj kl) G)).2.pop.length) kl], by simp [hWpop, hWsc, curBlkD, curBlk],
+          else .vint ((buildExpr fc w (pushScope (.obj kl) G)).2.pop.length) kl], by simp [hWpop, hWtl],
         by simp [szS]; omega, ?_⟩
       intro x hx
       rcases List.mem_append.1 hx with h | h
-      · exact expr_rows_plain (fc := fc) (e := w) (st := st) hoW x h
+      · exact hoW x h
       · simp at h
         rcases h with rfl | rfl
         · simp [Row.smtOf, skeys]
         · exact ⟨(hsubf _).2.1, (hsubf _).2.2⟩
     · exact newVar_ts (by simpa using hWts) hsubf
     · exact hVsym
-    · simp [curBlk_install, install_tail, hWsc, curBlk]
+    · simp [curBlk_install, install_tail, hWtl]
     · rfl
     · rfl
     · rfl
     · refine hprint _ _ [.var v (curBlkD st.scopes), if isMany card then .vins ((buildExpr fc w (pushScope (.obj kl) G)).2.pop.length) kl
           else .vint ((buildExpr fc w (pushScope (.obj kl) G)).2.pop.length) kl] hVsym ?_ ?_
       · rw [newVar_scopes, findSym_install hne]; simp
-      · simp [hWsc, curBlkD, curBlk]
+      · simp [hWtl]
 
 /-! ### `if` with elif / else clauses -/
 
@@ -2398,7 +2517,7 @@ theorem else_some_spec {fc : FCtx} {ifS : Nat} {eb : Block} {st : St} (hinv : In
 
 /-- one `elif`: ACT_SMT (in the block holding the `if`, chained nowhere), the condition's values, a new ACT_BLK and its
     statement list, ACT_EL; then the remaining clauses -/
-theorem elifs_cons_spec {fc : FCtx} {ifS : Nat} {e : Expr} {b : Block} {rest : Elifs} {st : St} (hce : coreE e = true)
+theorem elifs_cons_spec {fc : FCtx} {ifS : Nat} {e : Expr} {b : Block} {rest : Elifs} {st : St} (hce : coreX e = true)
     (hinv : Inv st) (hif : ifS < st.pop.length) (hok : (buildElifs fc ifS (.cons e b rest) st).ok = true)
     (hMr : ∀ st' : St, (buildElifs fc ifS rest st').ok = true → st'.ok = true)
     (hM : ∀ st' : St, (buildStmts fc none b st').ok = true → st'.ok = true)
@@ -2417,12 +2536,12 @@ theorem elifs_cons_spec {fc : FCtx} {ifS : Nat} {e : Expr} {b : Block} {rest : E
         ((buildExpr fc e (newSmt none st).2).2.new (.blk false)).2)).ok = true := by rw [← hX1] at hok1; simpa using hok1
     simpa using hM _ h1
   have hts0 := newSmt_ts (prev := none) hinv (by intro k h; cases h)
-  have E := buildExpr_spec fc e (newSmt none st).2 hce (newSmt_sym hinv) hts0.tsv hokV
-  obtain ⟨dE, hdE, hlE, _, hoE⟩ := E.grows
+  have E := buildExpr_specW fc e (newSmt none st).2 hce hts0 (newSmt_sym hinv) (by simpa using hinv.isSome) hokV
+  obtain ⟨dE, hdE, hlE, hoE⟩ := E.grows
   have G := block_gen (fc := fc) (prev := none) (b := b) (st := st) (szV e + szB b + 2) (buildExpr fc e (newSmt none st).2).2
     (fun k => .el st.pop.length k (buildExpr fc e (newSmt none st).2).1 ifS) dE X1 hX1.symm hinv hok1
-    (by rw [hdE]; simp) (expr_rows_plain (fc := fc) (e := e) (st := st) hoE) (hts0.expr E)
-    (E.symOK (newSmt_sym hinv)) (by rw [E.scopes]; simp) (by rw [E.scopes]; simp)
+    (by rw [hdE]; simp) hoE E.ts
+    E.sym (by rw [E.shape.1]; simp) (by rw [E.shape.2]; simp)
     (fun h => by have := E.ok0; simp at this; exact this.1)
     ⟨rfl, (fun k hk => by simp [skeys] at hk; omega), rfl⟩ (by omega) (by omega) hM hC
   obtain ⟨dm, hdm, hszm, hrows⟩ := G.grows
@@ -2467,14 +2586,14 @@ theorem elifs_cons_spec {fc : FCtx} {ifS : Nat} {e : Expr} {b : Block} {rest : E
     rw [hrest, hq, hval, hblk]
 
 /-- the state after the ACT_IF row: ACT_SMT, the condition's values, a new ACT_BLK and its statement list, ACT_IF -/
-theorem if_head {fc : FCtx} {prev : Option Nat} {e : Expr} {b : Block} {st : St} (hce : coreE e = true)
+theorem if_head {fc : FCtx} {prev : Option Nat} {e : Expr} {b : Block} {st : St} (hce : coreX e = true)
     (hinv : Inv st) (hprev : ∀ k, prev = some k → k < st.pop.length)
     (hok : (buildStmt fc prev (.if_ e b .nil .none) st).2.ok = true)
     (hM : ∀ st' : St, (buildStmts fc none b st').ok = true → st'.ok = true)
     (hC : ∀ st' : St, Inv st' → (buildStmts fc none b st').ok = true → ChainSpec fc none b st') :
     BSpec fc prev b (szV e + szB b + 2) st (buildExpr fc e (newSmt prev st).2).2
       (.if_ st.pop.length (buildExpr fc e (newSmt prev st).2).2.pop.length (buildExpr fc e (newSmt prev st).2).1)
-      (buildStmt fc prev (.if_ e b .nil .none) st).2 ∧ ExprSpec fc e (newSmt prev st).2 := by
+      (buildStmt fc prev (.if_ e b .nil .none) st).2 ∧ ExprSpecW fc e (newSmt prev st).2 := by
   have hb : (buildStmt fc prev (.if_ e b .nil .none) st).2 =
       ((popScope (buildStmts fc none b (pushScope (.blk (buildExpr fc e (newSmt prev st).2).2.pop.length)
         ((buildExpr fc e (newSmt prev st).2).2.new (.blk false)).2))).new
@@ -2485,20 +2604,20 @@ theorem if_head {fc : FCtx} {prev : Option Nat} {e : Expr} {b : Block} {st : St}
         ((buildExpr fc e (newSmt prev st).2).2.new (.blk false)).2)).ok = true := by rw [hb] at hok; simpa using hok
     simpa using hM _ h1
   have hts0 := newSmt_ts hinv hprev
-  have E := buildExpr_spec fc e (newSmt prev st).2 hce (newSmt_sym hinv) hts0.tsv hokV
-  obtain ⟨dE, hdE, hlE, _, hoE⟩ := E.grows
+  have E := buildExpr_specW fc e (newSmt prev st).2 hce hts0 (newSmt_sym hinv) (by simpa using hinv.isSome) hokV
+  obtain ⟨dE, hdE, hlE, hoE⟩ := E.grows
   refine ⟨?_, E⟩
   exact block_gen (fc := fc) (prev := prev) (b := b) (st := st) (szV e + szB b + 2) (buildExpr fc e (newSmt prev st).2).2
     (fun k => .if_ st.pop.length k (buildExpr fc e (newSmt prev st).2).1) dE _ hb hinv hok
-    (by rw [hdE]; simp) (expr_rows_plain (fc := fc) (e := e) (st := st) hoE) (hts0.expr E)
-    (E.symOK (newSmt_sym hinv)) (by rw [E.scopes]; simp) (by rw [E.scopes]; simp)
+    (by rw [hdE]; simp) hoE E.ts
+    E.sym (by rw [E.shape.1]; simp) (by rw [E.shape.2]; simp)
     (fun h => by have := E.ok0; simp at this; exact this.1)
     ⟨rfl, (fun k hk => by simp [skeys] at hk), rfl⟩ (by omega) (by omega) hM hC
 
 /-- `if` with its elif / else clauses: the rows up to the ACT_IF, then every clause's ACT_SMT (in the block HOLDING the
     if, no R661 link), values, block and ACT_EL / ACT_E row naming the if over R682 / R683 -/
 theorem ifFull_spec {fc : FCtx} {prev : Option Nat} {e : Expr} {b : Block} {elifs : Elifs} {els : Else} {st : St}
-    (hce : coreE e = true) (hinv : Inv st) (hprev : ∀ k, prev = some k → k < st.pop.length)
+    (hce : coreX e = true) (hinv : Inv st) (hprev : ∀ k, prev = some k → k < st.pop.length)
     (hok : (buildStmt fc prev (.if_ e b elifs els) st).2.ok = true)
     (hM : ∀ st' : St, (buildStmts fc none b st').ok = true → st'.ok = true)
     (hC : ∀ st' : St, Inv st' → (buildStmts fc none b st').ok = true → ChainSpec fc none b st')
@@ -3227,5 +3346,57 @@ example : regenFlat (prebuildFlat selfFc selfBody2) = genTokens selfBody2 :=
 
 set_option maxRecDepth 100000 in
 example : ((prebuildFlat selfFc selfBody2).filter (fun r => r == .var "self" 0)).length = 1 := by decide
+
+/-! ### non-vacuity: `self` inside expressions — heads of if / elif / while, a declaring assignment, a where clause -/
+
+/-- `if (self.Age > 1) self.Age = 1; elif (not_empty self) return self.Age + 1; else x = 0; end if;
+    while (self.Age < 3) self.Age = self.Age + 1; end while; x = self.Age * 2;
+    select any d from instances of DOG where (selected.Age == self.Age);`
+    (the head of the `if` creates the variable in the outer block; every later `self` finds it) -/
+def selfBody3 : Block :=
+  .cons (.if_ (.bin (.field .self "Age") ">" (.int "1"))
+      (.cons (.assign (.field .self "Age") (.int "1")) .nil)
+      (.cons (.un "not_empty" .self) (.cons (.ret (some (.bin (.field .self "Age") "+" (.int "1")))) .nil) .nil)
+      (.some (.cons (.assign (.var "x") (.int "0")) .nil)))
+  (.cons (.while_ (.bin (.field .self "Age") "<" (.int "3"))
+      (.cons (.assign (.field .self "Age") (.bin (.field .self "Age") "+" (.int "1"))) .nil))
+  (.cons (.assign (.var "x") (.bin (.field .self "Age") "*" (.int "2")))
+  (.cons (.selFromW "any" "d" "DOG" (.bin (.field .selected "Age") "==" (.field .self "Age"))) .nil)))
+
+set_option maxRecDepth 100000 in
+example : coreB selfBody3 = true ∧ flatOk selfFc selfBody3 = true := by decide
+
+set_option maxRecDepth 100000 in
+example : regenFlat (prebuildFlat selfFc selfBody3) = genTokens selfBody3 :=
+  regenFlat_prebuildFlat selfFc selfBody3 (by decide) (okAll_of_flatOk selfFc selfBody3 (by decide) (by decide))
+
+/- the variable is created ONCE, by the head of the `if` (rows 2 / 3, in the outer block 0) -/
+set_option maxRecDepth 100000 in
+example : (prebuildFlat selfFc selfBody3)[2]? = some (.var "self" 0) ∧
+    (prebuildFlat selfFc selfBody3)[3]? = some (.vint 2 "DOG") ∧
+    ((prebuildFlat selfFc selfBody3).filter (fun r => match r with | .var n _ => n == "self" | _ => false)).length = 1 := by
+  decide
+
+/- in a home without a `self` the body is rejected -/
+set_option maxRecDepth 100000 in
+example : flatOk { selfFc with selfKl := none } selfBody3 = false := by decide
+
+/-- `select any d from instances of DOG where (selected.Age == self.Age); x = (self == d); while (not_empty self) break;
+    end while;`: a `self` first used in a where clause is installed in the O_OBJ scope of the clause and dropped with it
+    (its V_VAR / V_INT rows stay), so the next statement creates the variable again -/
+def selfBody4 : Block :=
+  .cons (.selFromW "any" "d" "DOG" (.bin (.field .selected "Age") "==" (.field .self "Age")))
+  (.cons (.assign (.var "x") (.bin .self "==" (.var "d")))
+  (.cons (.while_ (.un "not_empty" .self) (.cons .brk .nil)) .nil))
+
+set_option maxRecDepth 100000 in
+example : coreB selfBody4 = true ∧ flatOk selfFc selfBody4 = true := by decide
+
+set_option maxRecDepth 100000 in
+example : regenFlat (prebuildFlat selfFc selfBody4) = genTokens selfBody4 :=
+  regenFlat_prebuildFlat selfFc selfBody4 (by decide) (okAll_of_flatOk selfFc selfBody4 (by decide) (by decide))
+
+set_option maxRecDepth 100000 in
+example : ((prebuildFlat selfFc selfBody4).filter (fun r => r == .var "self" 0)).length = 2 := by decide
 
 end Pyx.Prebuild.Flat
